@@ -91,7 +91,7 @@ pub fn shim_render_labels(m: &IndexMap<String, String>) -> (r: Vec<String>) ensu
 //@REWRITE R19 re:\}\);\n(\s*)let labels = values ==> }\n\1let labels = values
 //@REWRITE R20 re:values\s*\.iter\(\)\s*\.map\(\|\(k, v\)\| format!\("\{\}=\\"\{\}\\"", sanitize_label_key\(k\), sanitize_label_value\(v\)\)\)\s*\.collect\(\) ==> shim_render_labels(&values)
 //@FORLOOP 1 it shim_same shim_li_next
-//@AFTER 1 let mut values = default_labels.cloned().unwrap_or_default();
+//@AFTER 1 let mut values =
     let ghost g0 = values@;
     let ghost own = key.label_seq();
     proof { assert(g0 == (match default_labels { Some(g) => g@, None => Seq::<(Seq<char>, Seq<char>)>::empty() })); assert(own.take(0) =~= Seq::<&Label>::empty()); }
@@ -103,7 +103,7 @@ pub fn shim_render_labels(m: &IndexMap<String, String>) -> (r: Vec<String>) ensu
             values@ == merged(g0, own.take(own.len() - li_remaining(&it).len())),
         ensures li_remaining(&it).len() == 0,
         decreases li_remaining(&it).len(),
-//@BEFORE 1 values.insert(label.key().to_string(), label.value().to_string());
+//@BEFORE 1 values.insert(
         let ghost i0 = own.len() - li_remaining(&it).len() - 1;
         proof {
             assert(label == own[i0]);
